@@ -18,6 +18,7 @@ RULE = (
     "its encoding; non-trivial = at least one deviation or appended element"
 )
 ASSUMPTIONS = [
+    "two tempo events on one position (possible when each has a package of its own): the one that comes later in the file is in force, as for duplicate entries in the other formats",
     "4 beats per measure (channel 0, fractional measures, is not generated: the source marks it as unverified)",
     "float32 tempos are taken at their exact value; tolerance 1e-6 ms + 1e-9 relative",
     "header strings are zero-padded ASCII (DESIGN 7.11)",
@@ -142,6 +143,8 @@ AXES = [
             ("three-after-last", ax_tempo([(5, F(0), 99.0), (6, F(1, 2), 50.0), (7, F(1, 4), 120.0)])),
             ("all_diffs", ax_tempo([(1, F(0), 60.0)], True)),
             ("interleaved-packages", ax_tempo([(0, F(1, 2), 240.0), (0, F(1, 4), 60.0), (1, F(3, 4), 90.0), (1, F(1, 3), 150.0)], False, True)),
+            # two tempo events on one position (own packages): the one that comes later in the file is in force
+            ("tie-same-position", ax_tempo([(1, F(1, 2), 150.0), (1, F(1, 2), 90.0)], False, True)),
         ],
     ),
     ("slots", [(str(n), ax_slots(n)) for n in (2, 3, 4, 8, 12, 16)]),
@@ -177,7 +180,8 @@ def finalize(doc):
     for d in doc["ev"]:
         cells = set()
         for m, p, ch, k, v in d:
-            if (m, p, ch) in cells:
+            if (m, p, ch) in cells and not (ch == 1 and doc.get("tempo_own_packages")):
+                # (two tempo events on one position are possible when each has a package of its own: the later one is in force)
                 doc["_invalid"] = "two events in one slot"
             cells.add((m, p, ch))
         for ch in range(2, 9):
